@@ -47,6 +47,15 @@ def make_case(idx, tier):
             if m.startswith(("'", '`')):
                 m = R.choice(SINGLE)
             keys += m
+    x = R.random()
+    if x < 0.06 and lines:
+        # CR LF files, form feeds: they are blanks for words and for the first non-blank, whatever they look like on screen
+        lines = [l + '\r' for l in lines] if R.random() < 0.6 else [R.choice(['\f', '\v', '\f ']) + l for l in lines]
+    elif x < 0.12 and lines:
+        # a line longer than the lim option (256 characters): laid out by the plain path, still one cell run per character width
+        k = R.randrange(len(lines))
+        lines[k] = R.choice(['漢字', 'ab漢', '\tx字', 'éé']) * R.choice([2, 5]) + R.choice(['a', 'ab ', 'x字']) * R.choice([130, 200, 300])
+        keys = '%dG' % (k + 1) + R.choice(['10|', '5|', '9|j', '7|k', '300|', '$', '12|l']) + keys[:12]
     return {'lines': lines, 'keys': keys, 'rows': rows, 'idx': idx}
 
 
